@@ -79,14 +79,17 @@ class Matcher:
         if "android_locale" in d and "locale" not in d:
             # map android_locale to locale code
             locale = d["android_locale"]
+            if locale.startswith("b+"):
+                locale = locale[2:].replace("+", "-")
+            else:
+                locale = re.sub(r"-r([A-Z]{2})", r"-\1", locale)
             # map legacy locale codes, he <-> iw, id <-> in, yi <-> ji
+            # Only the language subtag at the start is a legacy code.
             locale = re.sub(
-                r"(iw|in|ji)(?=\Z|-)",
+                r"^(iw|in|ji)(?=\Z|-)",
                 lambda legacy: ANDROID_STANDARD_MAP[legacy.group(1)],
                 locale,
             )
-            locale = re.sub(r"-r([A-Z]{2})", r"-\1", locale)
-            locale = locale.replace("b+", "").replace("+", "-")
             d["locale"] = locale
         return d
 
@@ -337,8 +340,9 @@ class AndroidLocale(Variable):
             return None
         android = bcp47 = env["locale"].expand(self._no_cycle(env))
         # map legacy locale codes, he <-> iw, id <-> in, yi <-> ji
+        # Only the language subtag at the start is mapped.
         android = bcp47 = re.sub(
-            r"(he|id|yi)(?=\Z|-)",
+            r"^(he|id|yi)(?=\Z|-)",
             lambda standard: ANDROID_LEGACY_MAP[standard.group(1)],
             bcp47,
         )
